@@ -19,10 +19,15 @@ if [ "$what" != seeds ]; then
  done < selftest/mutants/INDEX.tsv
 fi
 if [ "$what" != mutants ]; then
- for d in seeded/*/; do
-  id=$(basename $d); prop=$(python3 -c "import json;print(json.load(open('$d/meta.json'))['property'])")
+ # every kept seeded change must be reported by the registered check of its property (scratch copies; 3 at a time)
+ one() {
+  d="$1"; id=$(basename $d); prop=$(python3 -c "import json;print(json.load(open('$d/meta.json'))['property'])")
   out=$(tools/runseed.sh $id $prop 2>&1)
-  if echo "$out" | grep -q "^VIOLATION property=$prop"; then echo "ok   seed $id: $(echo "$out" | grep -c '^VIOLATION') violations"; else echo "MISS seed $id"; echo "$out" | tail -3; bad=1; fi
- done
+  if echo "$out" | grep -q "^VIOLATION property=$prop"; then echo "ok   seed $id: $(echo "$out" | grep -c '^VIOLATION') violations"; else echo "MISS seed $id"; echo "$out" | tail -3; fi
+ }
+ export -f one
+ res=$(ls -d seeded/*/ | xargs -P ${SELFTEST_JOBS:-3} -I{} bash -c 'one {}')
+ echo "$res" | sort
+ if echo "$res" | grep -q "^MISS"; then bad=1; fi
 fi
 exit $bad
